@@ -29,6 +29,7 @@ class Unit:
         self.name = name
         self.sentinel = sentinel
         self.sentinels = []
+        self.relaxed = []
         self.repo = repo
         self.verif = verif
         self.out = []
@@ -252,7 +253,9 @@ class Unit:
                     raise LostAnchor('%s: loop #%d not found (%d loops)' % (key, lc.ordinal, len(loops)))
                 kw, hdr, bopen = loops[lc.ordinal]
                 if hdr != lc.fingerprint:
-                    raise LostAnchor('%s: loop #%d header is %r, contract expects %r' % (key, lc.ordinal, hdr, lc.fingerprint))
+                    # relaxed anchor: the loop header text changed; keep the contract on the loop with the same ordinal
+                    # (the obligation names stay the same, so a failure is still "an obligation that held and now fails")
+                    self.relaxed.append('%s: loop #%d header is %r, contract written for %r' % (key, lc.ordinal, hdr, lc.fingerprint))
                 sent = ''
                 if self.sentinel and any(sec.startswith('invariant') for sec, _ in lc.clauses):
                     tag = '%s#loop%d' % (key, lc.ordinal)
@@ -272,7 +275,10 @@ class Unit:
             blines = body.split('\n')
             idxs = [i for i, l in enumerate(blines) if l.strip() == anchor]
             if nth >= len(idxs):
-                raise LostAnchor('%s: anchor line %r #%d not found (%d occurrences)' % (key, anchor, nth, len(idxs)))
+                # relaxed anchor: a proof hint whose anchor line is gone is skipped (hints are ghost; skipping one can
+                # only make the proof harder, never make a wrong program verify)
+                self.relaxed.append('%s: hint anchor %r #%d not found, hint skipped' % (key, anchor, nth))
+                continue
             i = idxs[nth]
             ins = [l for l in lines]
             while ins and not ins[-1].strip():
